@@ -16,6 +16,8 @@ pub const ASCII_WORDS: &[&str] = &[
 pub const HYPHEN_WORDS: &[&str] = &[
     "foo-bar", "a-b-c", "--x", "x-", "-", "--", "can-be-split", "-foo", "foo--bar", "a-1", "1-2-3", "x-\u{4f60}", "\u{e9}-\u{e9}", "a-", "self-",
     "--foo-bar", "b-!", "jack-in-the-box", "\u{5bbd}-a\u{301}", "a\u{301}-\u{4f60}", "foo\u{2010}bar",
+    // non-ASCII numeric characters (alphanumeric but not alphabetic) next to a hyphen
+    "route-\u{ff16}\u{ff16}", "x\u{b2}-y", "\u{bd}-a", "\u{663}-\u{664}", "a-\u{2461}",
 ];
 pub const UNI_WORDS: &[&str] = &[
     "\u{4f60}\u{597d}", "\u{4e16}\u{754c}", "\u{4f60}", "caf\u{e9}", "\u{e9}t\u{e9}", "\u{1f602}", "\u{1f602}\u{1f60d}", "e\u{301}", "\u{301}",
